@@ -1,6 +1,7 @@
 package main
 
 import (
+	"math"
 	"fmt"
 	"sort"
 	"time"
@@ -247,6 +248,27 @@ func drvBand(c *ctx) error {
 		// an undefined name must be an error
 		ev, _ := bandCfgEvent(band.Name("XX999"), false, 0)
 		c.emit(ev)
+	case "misc": // extended coverage: max EIRP, TXParamSetup support, downlink TX power
+		for _, name := range bandNames {
+			b, err := band.GetConfig(name, false, lorawan.DwellTimeNoLimit)
+			if err != nil {
+				return err
+			}
+			txp := M{}
+			for _, v := range []string{"1.0.0", "1.0.1", "1.0.2", "1.0.3", "1.0.4", "1.1.0", "unknown"} {
+				txp[v] = b.ImplementsTXParamSetup(v)
+			}
+			dl := []interface{}{}
+			s, _ := band.VerifSnapshot(b)
+			fs := []uint32{b.GetDefaults().RX2Frequency, 0, 869525000, 868100000}
+			for _, ch := range s.DownlinkChannels {
+				fs = append(fs, ch.Channel.Frequency)
+			}
+			for _, f := range fs {
+				dl = append(dl, M{"f": freqVal(f), "p": b.GetDownlinkTXPower(f)})
+			}
+			c.emit(M{"ev": "bandmisc", "bname": b.Name(), "eirpc": int(math.Round(float64(b.GetDefaultMaxUplinkEIRP()) * 100)), "txparam": txp, "dltx": dl})
+		}
 	case "pingslot":
 		for _, name := range bandNames[:14] {
 			b, err := band.GetConfig(name, false, lorawan.DwellTimeNoLimit)
